@@ -121,6 +121,38 @@ Proof.
   destruct (if existsb _ _ then _ else _); [discriminate E|apply F].
 Qed.
 
+(* CURRENT code: generalized correlations as well, when which = 'generalized' *)
+Theorem decide_pcgen_current new_ids maps nn cs o r :
+  decide new_ids maps nn cs o = ORet r -> o_pc o = true -> o_gen o = true -> t_pcgen r = true.
+Proof.
+  unfold decide, decide_gen. intros H Hpc Hg. revert H. rewrite Hpc. rewrite andb_false_r.
+  assert (F : forall w, finish_gen current (equal_n_opers maps) (length (unique_ids maps) =? length new_ids)
+                 (forallb (fun x => count_true (fst x) =? snd x) (combine (present maps) nn)) o w = ORet r -> t_pcgen r = true).
+  { intros w. unfold finish_gen. rewrite Hpc, Hg. simpl. rewrite andb_false_r.
+    destruct (negb _); [discriminate|]. destruct (negb _); [discriminate|].
+    intros H; inversion H; subst; reflexivity. }
+  destruct (o_omega o) as [w|]; [apply F|].
+  destruct (all_equal_nat (if existsb _ _ then _ else _)) eqn:E; simpl.
+  2:{ destruct (is_ttrue (o_ff o)); discriminate. }
+  rewrite andb_false_r. simpl.
+  destruct (if existsb _ _ then _ else _); [discriminate E|apply F].
+Qed.
+(* calc_filter_function = True: a returned pulse has the control matrix and the filter function cached (every mech) *)
+Theorem decide_ff_forced mc new_ids maps nn cs o r :
+  decide_gen mc new_ids maps nn cs o = ORet r -> o_ff o = TTrue -> t_ff r = true /\ t_cm r = true.
+Proof.
+  unfold decide_gen. intros H Hff. revert H. rewrite Hff. simpl.
+  assert (F : forall w, finish_gen mc (equal_n_opers maps) (length (unique_ids maps) =? length new_ids)
+                 (forallb (fun x => count_true (fst x) =? snd x) (combine (present maps) nn)) o w = ORet r ->
+              t_ff r = true /\ t_cm r = true).
+  { intros w. unfold finish_gen. destruct (negb _ && _); [intros H; inversion H; subst; auto|].
+    destruct (negb _); [discriminate|]. destruct (negb _); [discriminate|].
+    intros H; inversion H; subst; auto. }
+  destruct (o_omega o) as [w|]; [apply F|].
+  destruct (all_equal_nat (if existsb _ _ then _ else _)) eqn:E; simpl; [|discriminate].
+  destruct (if existsb _ _ then _ else _); [discriminate E|apply F].
+Qed.
+
 (* the two crashes of the row bookkeeping need inconsistent masks *)
 Definition lens_ok (new_ids : list string) (maps : list (list (string * string))) : bool :=
   length (unique_ids maps) =? length new_ids.
@@ -150,14 +182,16 @@ Theorem decide_sound_current new_ids maps nn cs o :
   lens_ok new_ids maps = true -> rows_ok maps nn = true ->
   match decide new_ids maps nn cs o with
   | ORaise e => (e = EForced \/ e = ENoFreqPC) /\ o_omega o = None /\ all_equal_nat (grids_consulted cs) = false
-  | ORet r => (freq_dependent r = true -> grid_known cs o r) /\ (o_pc o = true -> t_pc r = true)
+  | ORet r => (freq_dependent r = true -> grid_known cs o r) /\ (o_pc o = true -> t_pc r = true) /\
+              (o_pc o = true -> o_gen o = true -> t_pcgen r = true) /\ (o_ff o = TTrue -> t_ff r = true /\ t_cm r = true)
   | OCopy => True
   end.
 Proof.
   intros Hl Hr. destruct (decide new_ids maps nn cs o) as [e| |r] eqn:E; auto.
   - destruct (decide_raise_sound current _ _ _ _ _ _ E) as [([[-> _]|[-> _]] & H2 & H3)|Hc]; auto.
     destruct (decide_crash_needs_bad_masks current _ _ _ _ _ _ E Hc); congruence.
-  - split. apply (decide_grid_sound current _ _ _ _ _ _ E). apply (decide_pc_current _ _ _ _ _ _ E).
+  - split; [|split; [|split]]. apply (decide_grid_sound current _ _ _ _ _ _ E). apply (decide_pc_current _ _ _ _ _ _ E).
+    apply (decide_pcgen_current _ _ _ _ _ _ E). apply (decide_ff_forced current _ _ _ _ _ _ E).
 Qed.
 
 (* the full soundness statement of the property for the decision logic *)
@@ -776,7 +810,8 @@ Theorem decision_sound (ps : list pulse) cs o : Forall wf_pulse ps ->
   match concatenate_outcome ps cs o with
   | ORaise e => incompatible e \/
                 (e = EForced \/ e = ENoFreqPC) /\ o_omega o = None /\ all_equal_nat (grids_consulted cs) = false
-  | ORet r => (freq_dependent r = true -> grid_known cs o r) /\ (o_pc o = true -> t_pc r = true)
+  | ORet r => (freq_dependent r = true -> grid_known cs o r) /\ (o_pc o = true -> t_pc r = true) /\
+              (o_pc o = true -> o_gen o = true -> t_pcgen r = true) /\ (o_ff o = TTrue -> t_ff r = true /\ t_cm r = true)
   | OCopy => True
   end.
 Proof.
@@ -787,7 +822,8 @@ Proof.
                                    (map (fun p => length (h_entries (p_noise p))) ps) cs o end) with
               | ORaise e => incompatible e \/
                   (e = EForced \/ e = ENoFreqPC) /\ o_omega o = None /\ all_equal_nat (grids_consulted cs) = false
-              | ORet r => (freq_dependent r = true -> grid_known cs o r) /\ (o_pc o = true -> t_pc r = true)
+              | ORet r => (freq_dependent r = true -> grid_known cs o r) /\ (o_pc o = true -> t_pc r = true) /\
+                  (o_pc o = true -> o_gen o = true -> t_pcgen r = true) /\ (o_ff o = TTrue -> t_ff r = true /\ t_cm r = true)
               | OCopy => True end).
   { unfold concatenate_without_ff_gen.
     destruct (negb (all_equal_nat (map (@p_d oper coef) ps))). { left. left. reflexivity. }
